@@ -7,7 +7,7 @@ CONSTANTS
   MaxH = 100000
   MaxOC = 1
   MaxSC = 3
-  MaxEvents = 3
+  MaxEvents = 2
   Sizes = {1000}
   Durs = {3600}
   Timeouts = {300, 1800, 3600}
